@@ -31,11 +31,11 @@ Ltac inv H := inversion H; subst; clear H.
 
 (* normal form for state expressions: top-level accessors and setters unfolded, projections reduced *)
 Ltac sproj :=
-  unfold clock, faults, trace, taint_close, taint_gc, nconns, c_nclose, c_start, c_det, c_mark, c_soft, nrecs, r_dbc, r_start, r_soft, r_fresh, r_fairy, nfairies, f_dbc, f_rec, f_orig, f_counter, f_dead, inv_time, q, overflow, static, sg_rec, sg_fairy, as_conn, as_out,
-    set_clock, set_faults, set_trace, set_taint_close, set_taint_gc, set_nconns, set_c_nclose, set_c_start, set_c_det, set_c_mark, set_c_soft, set_nrecs, set_r_dbc, set_r_start, set_r_soft, set_r_fresh, set_r_fairy, set_nfairies, set_f_dbc, set_f_rec, set_f_orig, set_f_counter, set_f_dead, set_inv_time, set_q, set_overflow, set_static, set_sg_rec, set_sg_fairy, set_as_conn, set_as_out, set_ex, set_cn, set_rc, set_fr, set_holders, set_pl in *;
-  cbn [clock_ faults_ trace_ taint_close_ taint_gc_ nconns_ c_nclose_ c_start_ c_det_ c_mark_ c_soft_ nrecs_ r_dbc_ r_start_ r_soft_ r_fresh_ r_fairy_ nfairies_ f_dbc_ f_rec_ f_orig_ f_counter_ f_dead_ inv_time_ q_ overflow_ static_ sg_rec_ sg_fairy_ as_conn_ as_out_ ex cn rc fr holders pl] in *.
+  unfold clock, faults, trace, taint_close, taint_reset, nconns, c_nclose, c_start, c_det, c_mark, c_soft, nrecs, r_dbc, r_start, r_soft, r_fresh, r_fairy, nfairies, f_dbc, f_rec, f_orig, f_counter, f_dead, inv_time, q, overflow, static, sg_rec, sg_fairy, as_conn, as_out,
+    set_clock, set_faults, set_trace, set_taint_close, set_taint_reset, set_nconns, set_c_nclose, set_c_start, set_c_det, set_c_mark, set_c_soft, set_nrecs, set_r_dbc, set_r_start, set_r_soft, set_r_fresh, set_r_fairy, set_nfairies, set_f_dbc, set_f_rec, set_f_orig, set_f_counter, set_f_dead, set_inv_time, set_q, set_overflow, set_static, set_sg_rec, set_sg_fairy, set_as_conn, set_as_out, set_ex, set_cn, set_rc, set_fr, set_holders, set_pl in *;
+  cbn [clock_ faults_ trace_ taint_close_ taint_reset_ nconns_ c_nclose_ c_start_ c_det_ c_mark_ c_soft_ nrecs_ r_dbc_ r_start_ r_soft_ r_fresh_ r_fairy_ nfairies_ f_dbc_ f_rec_ f_orig_ f_counter_ f_dead_ inv_time_ q_ overflow_ static_ sg_rec_ sg_fairy_ as_conn_ as_out_ ex cn rc fr holders pl] in *.
 
-Definition taint (s : st) : bool := taint_close s || taint_gc s.
+Definition taint (s : st) : bool := taint_close s || taint_reset s.
 
 (* ------------------------------------------------------------------ RecLevel *)
 Record RecLevel (s s' : st) : Prop := {
@@ -51,7 +51,7 @@ Record RecLevel (s s' : st) : Prop := {
   rl_nrecs : nrecs s' = nrecs s;
   rl_fairy : r_fairy s' = r_fairy s;
   rl_tc : taint_close s = true -> taint_close s' = true;
-  rl_tg : taint_gc s' = taint_gc s;
+  rl_tg : taint_reset s' = taint_reset s;
   rl_nconns : (nconns s <= nconns s')%nat }.
 
 Lemma RecLevel_refl : forall s, RecLevel s s.
@@ -177,7 +177,7 @@ Record Mono (s s' : st) : Prop := {
   m_hold : holders s' = holders s;
   m_sg : forall f, sg_fairy s' = Some f -> sg_fairy s = Some f \/ (nfairies s <= f < nfairies s')%nat;
   m_tc : taint_close s = true -> taint_close s' = true;
-  m_tg : taint_gc s = true -> taint_gc s' = true;
+  m_tg : taint_reset s = true -> taint_reset s' = true;
   m_nrecs : (nrecs s <= nrecs s')%nat }.
 
 Lemma Mono_refl : forall s, Mono s s.
@@ -343,34 +343,65 @@ Variable cf : cfg.
 Ltac mono_leaf := constructor; cbn; intros; auto; try lia.
 Ltac mt := eapply Mono_trans.
 
-(* the middle part of _finalize_fairy: reset (+ close when detached), invalidate on error *)
-Lemma finalize_mono : forall dbc r gcf twr fy s x s', finalize cf dbc r gcf twr fy s = (x, s') -> Mono s s'.
+(* _finalize_fairy, generically: any reflexive-transitive relation on states that contains the
+   record-level steps, the taint mark, the check-in of the record and the final clearing of the fairy
+   relates the state before and after *)
+Section FinalizeGen.
+Variable R : st -> st -> Prop.
+Hypothesis R_refl : forall s, R s s.
+Hypothesis R_trans : forall a b c, R a b -> R b c -> R a c.
+Hypothesis R_rl : forall s s', RecLevel s s' -> R s s'.
+Hypothesis R_taint : forall s, R s (set_taint_reset s true).
+Variable r : option nat.
+Variable fy : option nat.
+Hypothesis R_checkin : forall r0 s x s', r = Some r0 -> rec_checkin cf r0 true s = (x, s') -> R s s'.
+Hypothesis R_tail : forall f s, fy = Some f ->
+  R s (set_f_rec (set_f_dbc s (upd (f_dbc s) f None)) (upd (f_rec s) f None)).
+
+Lemma finalize_gen : forall dbc gcf twr s x s', finalize cf dbc r gcf twr fy s = (x, s') -> R s s'.
 Proof.
-  unfold finalize; intros.
-  match type of H with (if ?b then _ else _) = _ => destruct b; [inv H; apply Mono_refl|] end.
+  unfold finalize; intros dbc gcf twr s x s' H.
+  match type of H with (if ?b then _ else _) = _ => destruct b; [inv H; apply R_refl|] end.
   match type of H with (let '(_, _) := ?e in _) = _ => destruct e as [y s1] eqn:E0 end.
-  assert (M0 : Mono s s1).
-  { match type of E0 with match ?d with _ => _ end = _ => destruct d as [c|] end; [|inv E0; apply Mono_refl].
+  assert (M0 : R s s1).
+  { match type of E0 with match ?d with _ => _ end = _ => destruct d as [c|] end; [|inv E0; apply R_refl].
     match type of E0 with (let '(_, _) := ?e in _) = _ => destruct e as [y1 s2] eqn:E1 end.
-    assert (M1 : Mono s s2).
-    { destruct (fairy_reset cf c twr s) as [z s3] eqn:Er. apply fairy_reset_rl, RecLevel_Mono in Er.
+    assert (M1 : R s s2).
+    { destruct (fairy_reset cf c twr s) as [z s3] eqn:Er. apply fairy_reset_rl, R_rl in Er.
       destruct z; [|inv E1; auto]. dm E1; try (inv E1; auto; fail).
-      apply close_connection_rl, RecLevel_Mono in E1. mt; eauto. }
-    destruct y1; [inv E0; auto|].
+      apply close_connection_rl, R_rl in E1. eapply R_trans; eauto. }
+    destruct y1 as [|e]; [inv E0; auto|].
     match type of E0 with (let '(_, _) := ?e in _) = _ => destruct e as [z s3] eqn:E2 end.
-    assert (M2 : Mono s2 s3).
-    { match type of E2 with context [if ?b then set_taint_gc ?u true else ?u] =>
-        set (sa := if b then set_taint_gc u true else u) in *;
-        assert (Ma : Mono u sa) by (subst sa; destruct b; [mono_leaf|apply Mono_refl]) end.
-      mt; [exact Ma|].
-      destruct r; [eapply RecLevel_Mono, rec_invalidate_rl; exact E2|inv E2; apply Mono_refl]. }
-    repeat dm E0; inv E0; mt; eauto. }
+    assert (M2 : R s2 s3).
+    { match type of E2 with context [if ?b then set_taint_reset ?u true else ?u] =>
+        set (sa := if b then set_taint_reset u true else u) in *;
+        assert (Ma : R u sa) by (subst sa; destruct b; [apply R_taint|apply R_refl]) end.
+      eapply R_trans; [exact Ma|].
+      destruct r; [eapply R_rl, rec_invalidate_rl; exact E2|inv E2; apply R_refl]. }
+    assert (M3 : R s s3) by (eapply R_trans; eauto).
+    destruct z; [|inv E0; auto]. destruct (is_exception e); [inv E0; auto|].
+    destruct r as [r0|] eqn:Er0; [|inv E0; auto].
+    destruct (r_fairy s3 r0); [|inv E0; auto].
+    destruct (rec_checkin cf r0 true s3) as [w s4] eqn:Ec. apply (R_checkin _ _ _ _ eq_refl) in Ec.
+    unfold reraise_after in E0. destruct w; inv E0; eapply R_trans; eauto. }
   destruct y; [|inv H; auto].
   match type of H with (let '(_, _) := ?e in _) = _ => destruct e as [w s2] eqn:E1 end.
-  assert (M1 : Mono s1 s2).
-  { repeat dm E1; try (inv E1; apply Mono_refl). eapply rec_checkin_mono; eauto. }
-  destruct w; [|inv H; mt; eauto].
-  destruct fy; inv H; [|mt; eauto]. mt; [exact M0|]. mt; [exact M1|]. mono_leaf.
+  assert (M1 : R s1 s2).
+  { destruct r as [r0|]; [|inv E1; apply R_refl]. destruct (r_fairy s1 r0); [|inv E1; apply R_refl].
+    eapply R_checkin; eauto. }
+  destruct w; [|inv H; eapply R_trans; eauto].
+  destruct fy as [f|]; inv H; [|eapply R_trans; eauto].
+  eapply R_trans; [exact M0|]. eapply R_trans; [exact M1|]. apply R_tail; auto.
+Qed.
+End FinalizeGen.
+
+Lemma finalize_mono : forall dbc r gcf twr fy s x s', finalize cf dbc r gcf twr fy s = (x, s') -> Mono s s'.
+Proof.
+  intros dbc r gcf twr fy s x s' H.
+  eapply (finalize_gen Mono Mono_refl Mono_trans RecLevel_Mono); [| | |exact H].
+  - intros; mono_leaf.
+  - intros; eapply rec_checkin_mono; eauto.
+  - intros; mono_leaf.
 Qed.
 
 Lemma fairy_checkin_mono : forall f twr s x s', fairy_checkin cf f twr s = (x, s') -> Mono s s'.
@@ -595,31 +626,12 @@ Ltac nt := eapply SameNF_trans.
 
 Lemma finalize_nf : forall dbc r gcf twr fy s x s', finalize cf dbc r gcf twr fy s = (x, s') -> SameNF s s'.
 Proof.
-  unfold finalize; intros.
-  match type of H with (if ?b then _ else _) = _ => destruct b; [inv H; apply SameNF_refl|] end.
-  match type of H with (let '(_, _) := ?e in _) = _ => destruct e as [y s1] eqn:E0 end.
-  assert (M0 : fr s1 = fr s).
-  { match type of E0 with match ?d with _ => _ end = _ => destruct d as [c|] end; [|inv E0; auto].
-    match type of E0 with (let '(_, _) := ?e in _) = _ => destruct e as [y1 s2] eqn:E1 end.
-    assert (M1 : fr s2 = fr s).
-    { destruct (fairy_reset cf c twr s) as [z s3] eqn:Er. apply fairy_reset_rl, rl_fr' in Er.
-      destruct z; [|inv E1; auto]. dm E1; try (inv E1; auto; fail).
-      apply close_connection_rl, rl_fr' in E1. congruence. }
-    destruct y1; [inv E0; auto|].
-    match type of E0 with (let '(_, _) := ?e in _) = _ => destruct e as [z s3] eqn:E2 end.
-    assert (M2 : fr s3 = fr s2).
-    { match type of E2 with context [if ?b then set_taint_gc ?u true else ?u] =>
-        set (sa := if b then set_taint_gc u true else u) in *;
-        assert (Ma : fr sa = fr u) by (subst sa; destruct b; auto) end.
-      destruct r; [apply rec_invalidate_rl, rl_fr' in E2; congruence|inv E2; auto]. }
-    repeat dm E0; inv E0; congruence. }
-  destruct y; [|inv H; apply fr_SameNF; auto].
-  match type of H with (let '(_, _) := ?e in _) = _ => destruct e as [w s2] eqn:E1 end.
-  assert (M1 : fr s2 = fr s1).
-  { repeat dm E1; try (inv E1; auto; fail). eapply rec_checkin_fr; eauto. }
-  destruct w; [|inv H; apply fr_SameNF; congruence].
-  destruct fy; inv H; [|apply fr_SameNF; congruence].
-  apply (SameNF_trans _ s2); [apply fr_SameNF; congruence|nf_leaf].
+  intros dbc r gcf twr fy s x s' H.
+  eapply (finalize_gen cf SameNF SameNF_refl SameNF_trans); [| | | |exact H].
+  - intros. apply fr_SameNF, rl_fr'. auto.
+  - intros; nf_leaf.
+  - intros. eapply fr_SameNF, rec_checkin_fr; eauto.
+  - intros; nf_leaf.
 Qed.
 
 Lemma fairy_checkin_nf : forall f twr s x s', fairy_checkin cf f twr s = (x, s') -> SameNF s s'.
